@@ -29,7 +29,7 @@ type ArCase struct {
 	EagerEOF bool       `json:"eagerEOF,omitempty"` // read through eagerEOFReaderAt instead of bytes.Reader
 	// Used: 0 = a fresh bytes.Reader; 1 = a bytes.Reader some of which was already Read (a caller
 	// sniffing the magic); 2 = one that was read to its end (hashed); 3 = a strings.Reader seeked
-	// into the middle. ReadAt does not care where the Read position stands.
+	// into the middle; 4 = an io.SectionReader over a larger buffer (junk in front, more behind). ReadAt does not care where the Read position stands.
 	Used    int        `json:"used,omitempty"`
 	Members []ArMember `json:"members"`
 	Half    int        `json:"half"` // member read half-way before the iterator advances
@@ -63,7 +63,7 @@ func genArCase(t *rapid.T) ArCase {
 	c.Offs = rapid.SliceOfN(rapid.IntRange(0, 9000), 1, 4).Draw(t, "offs")
 	c.EagerEOF = rapid.IntRange(0, 3).Draw(t, "eagerEOF") == 0
 	if !c.EagerEOF {
-		c.Used = rapid.SampledFrom([]int{0, 0, 0, 1, 2, 3}).Draw(t, "used")
+		c.Used = rapid.SampledFrom([]int{0, 0, 0, 1, 2, 3, 4, 4}).Draw(t, "used")
 	}
 	return c
 }
@@ -151,6 +151,12 @@ var specC13 = Register(&Spec[ArCase]{
 			io.Copy(io.Discard, br)
 			shared = br
 			r.Count("reader-read-to-end", 1)
+		case 4:
+			// the archive is a window of something larger (an io.SectionReader with a base offset
+			// and more bytes behind its end): offsets are relative to the window, which also ends it
+			big := append(append([]byte("JUNK-IN-FRONT-OF-THE-ARCHIVE-"), raw...), []byte("!<arch>\ntrailing        0           0     0     100644  4         `\nJUNK")...)
+			shared = io.NewSectionReader(bytes.NewReader(big), int64(len("JUNK-IN-FRONT-OF-THE-ARCHIVE-")), int64(len(raw)))
+			r.Count("reader-is-a-window", 1)
 		case 3:
 			sr := strings.NewReader(string(raw))
 			sr.Seek(int64(len(raw)/2), io.SeekStart)
